@@ -295,6 +295,8 @@ func (ex *Exec) applyContract(f *Frame, st *State, x ssa.Instruction, con *Contr
 		seen := map[interface{}]bool{}
 		if con.HasMod {
 			ec := ex.calleeCtx(f, st, nil, callee, vars)
+			st.logW = true
+			defer func() { st.logW = false }()
 			for _, m := range con.Modifies {
 				func() {
 					defer func() {
@@ -489,6 +491,7 @@ func (ex *Exec) builtin(f *Frame, st *State, x *ssa.Call, bi *ssa.Builtin) Val {
 			return w.freshReg(st, x.Type(), "copy", OrigCall)
 		}
 		n := mkIte(app("bvslt", d.Len, sLen), d.Len, sLen)
+		st.writes = append(st.writes[:len(st.writes):len(st.writes)], writeRec{arr: d.A, what: "copy"})
 		ds := st.arrs[d.A]
 		if ds.C != nil && sC != nil {
 			id := app("c_copy", ds.C.ID(), d.Off, sC.ID(), sOff, n)
@@ -608,11 +611,14 @@ func (ex *Exec) havocLocation(st *State, ec *ExprCtx, src string) bool {
 		return false
 	}
 	idx, ft := findField(pt.Elem(), sel.Sel.Name)
-	if len(idx) != 1 || (p.Root == nil && p.Arr == nil) {
+	if len(idx) < 1 || (p.Root == nil && p.Arr == nil) {
 		return false
 	}
 	np := p
-	np.Path = append(append([]PathElem(nil), p.Path...), PathElem{Field: idx[0]})
+	np.Path = append([]PathElem(nil), p.Path...)
+	for _, k := range idx {
+		np.Path = append(np.Path, PathElem{Field: k})
+	}
 	ex.w.store(st, np, ex.w.freshReg(st, ft, "mod_"+sel.Sel.Name, OrigCall))
 	return true
 }
